@@ -53,6 +53,16 @@ N = {
  "C08-3": ("C08", "Clone of a list with >= 512 elements, length not a multiple of 256, holding a nested container in the last partial chunk"),
  "C09-3": ("C09", "Pluck(keys...) with the keys passed as a spread slice that is not already sorted: the callee sorts the caller's slice in place (argument modified)"),
  "C10-3": ("C10", "a list index segment of 20+ digits congruent modulo 2^64 to a valid index (hand-written decimal conversion overflows silently)"),
+"C11-3": ("C11", "an object with a key that ends in white space (\"a \") next to the trimmed key (\"a\"), and a tree-form path whose LAST key segment is the white-space key: every level trims the remaining path, so the write/unset hits the sibling"),
+"C12-3": ("C12", "Add with SEVERAL values of which a later one is unsupported: the slice was grown before conversion, the rejected and following slots stay as kind-less nil fields"),
+"C13-3": ("C13", "NativeSlice of a list with > 256 elements, length not a multiple of 256, holding a nested container in the last partial chunk (remainder never converted)"),
+"C14-3": ("C14", "typed object maps (MapStrings ...) on an object with >= 2 fields of the same kind: results paired with keys across two independent Go map iterations - wrong only for some iteration orders (intermittent)"),
+"C15-3": ("C15", "two goroutines calling Equals on the SAME list node with an equal-length operand that differs late: a 'visiting' flag written by the non-mutating Equals makes the second call return true (and is a data race)"),
+"C16-3": ("C16", "FormatString of a container holding, at depth >= 2, a single output line of >= 64 KiB (long string): bufio.Scanner token limit drops the rest of the child"),
+"C17-3": ("C17", "Sort of an all-int list with two values whose difference overflows int (MaxInt with a negative value, MinInt with a positive one): comparison by subtraction"),
+"C18-3": ("C18", "IntMin on a list whose int elements are all math.MaxInt / IntMax where all are math.MinInt: the fold's sentinel is mistaken for 'no int present'"),
+"C19-3": ("C19", "Sort called on a DERIVED list whose content is homogeneous and already in order: early return hands back the embedded list instead of the registered outer value"),
+"C20-3": ("C20", "a raw newline INSIDE a string literal (value or key) before a later syntax error: the fast path skips the line counter, cited line too small"),
 }
 rows = []
 base = '/verif/seeded'
@@ -72,8 +82,9 @@ for d in sorted(os.listdir(base)):
 head = open(f'{base}/README.md').read().split('| id | property |')[0]
 tail = """
 First confrontation (before any strengthening): round 1 - 13 of 20 detected at once, 7 missed; round 2 - 7 of 20
-detected at once, 13 missed (most of them history-dependent); round 3 (first ten) - 5 of 10 detected at once, 5 missed
-(size thresholds, byte classes, parser-made containers, argument mutation, integer overflow in a path index). What was strengthened for each miss is described in
+detected at once, 13 missed (most of them history-dependent); round 3 - 12 of 20 detected at once, 8 missed
+(size thresholds, byte classes, parser-made containers, argument mutation, integer overflow in a path index, keys ending in
+white space, concurrent Equals with an equal-length unequal operand). What was strengthened for each miss is described in
 DESIGN.md section 9. `tools/seed_all.sh` re-verifies every entry against the check of its property.
 """
 open(f'{base}/README.md', 'w').write(head + "| id | property | needs to manifest | compiles, tests pass, demo fails with / passes without | detected by (quick tier) |\n|---|---|---|---|---|\n" + "\n".join(rows) + "\n" + tail)
